@@ -21,19 +21,20 @@ open HalmosVerif.Props.C01 (exCode exEnv exI exI_std exP exW exF0 exR exOracle e
 theorem flagged {s : Simp} (hs : SimpSound s) {o : Oracle} (ho : OracleSound o) (cfg : Cfg) (env : Env)
     (code : List Nat) (fuel : Nat) (p : Evm.Params) (w : Evm.World) (hmem : cfg.maxMem + 32 ≤ p.memLimit)
     (hcode : ∀ b ∈ code, b < 256) (I : Interp) (hI : I.Std) (f0 : Evm.Frame)
-    (hR0 : R I env code p initState f0) (n : Nat) (w' : Evm.World) (h : Evm.Halt)
-    (hex : Evm.exec p n w f0 = some (w', h)) (hne : h ≠ .stackOverflow)
+    (hR0 : R I env code p initState f0) (hz : C01.ZeroStorage w f0.this) (n : Nat) (w' : Evm.World) (h : Evm.Halt)
+    (hex : Evm.exec p n w f0 = some (w', h))
     (hb : (run s o cfg env code fuel).boundedLoops = []) (hd : (run s o cfg env code fuel).depthCut = false)
     (hf : (run s o cfg env code fuel).outOfFuel = false)
     (herr : ∀ e ∈ (run s o cfg env code fuel).ends, Sat I e.st.path →
       (∀ r, e.out ≠ .stuck r) ∧ e.tag = .normal) :
     ∃ e ∈ (run s o cfg env code fuel).ends, Sat I e.st.path ∧ e.tag = .normal ∧
-      ∃ h0, e.out = .halt h0 ∧ haltWith h0 (e.data.map (·.eval I)) = h := by
-  rcases C02.complete hs ho cfg env code fuel p w hmem hcode I hI f0 hR0 n w' h hex hne with
+      (∃ h0, e.out = .halt h0 ∧ haltWith h0 (e.data.map (·.eval I)) = h) ∧
+      WRel I w w' f0.this e.st.storage e.st.transient := by
+  rcases C02.complete hs ho cfg env code fuel p w hmem hcode I hI f0 hR0 hz n w' h hex with
     ⟨e, hm, hsat, hc⟩ | hb' | hd' | hf'
   · obtain ⟨hns, htag⟩ := herr e hm hsat
-    rcases hc with ⟨h0, ho', hw, _⟩ | ⟨r, hr⟩ | ht
-    · exact ⟨e, hm, hsat, htag, h0, ho', hw⟩
+    rcases hc with ⟨h0, ho', hw, _, hW⟩ | ⟨r, hr⟩ | ht
+    · exact ⟨e, hm, hsat, htag, ⟨h0, ho', hw⟩, hW⟩
     · exact absurd hr (hns r)
     · exact absurd htag ht
   · exact absurd hb hb'
@@ -41,9 +42,10 @@ theorem flagged {s : Simp} (hs : SimpSound s) {o : Oracle} (ho : OracleSound o) 
   · rw [hf] at hf'; cases hf'
 
 /-- the flags, once raised, are never lowered by the rest of the exploration; end states are never removed -/
-theorem flags_persist {s : Simp} {o : Oracle} {cfg : Cfg} {env : Env} {code : List Nat} {I : Interp} {h : Evm.Halt}
-    (fuel steps : Nat) (wl : List SState) (acc : Result) (hc : Covered I h acc) :
-    Covered I h (explore s o cfg env code fuel steps wl acc) :=
+theorem flags_persist {s : Simp} {o : Oracle} {cfg : Cfg} {env : Env} {code : List Nat} {I : Interp}
+    {w0 : Evm.World} {this : Nat} {r : Evm.World × Evm.Halt}
+    (fuel steps : Nat) (wl : List SState) (acc : Result) (hc : Covered I w0 this r acc) :
+    Covered I w0 this r (explore s o cfg env code fuel steps wl acc) :=
   explore_mono fuel steps wl acc hc
 
 /-- the two cuts of the worklist loop raise their flag: a state popped after the `--depth` budget is dropped with
@@ -156,11 +158,17 @@ example : (run foldSimp exOracle { depth := 5 } exEnv loopCode 1000).depthCut = 
     end state reporting exactly the reference outcome -/
 example : ∃ e ∈ exRes.ends, Sat exI e.st.path ∧ e.tag = .normal ∧
     ∃ h0, e.out = .halt h0 ∧ haltWith h0 (e.data.map (·.eval exI)) = .invalidOpcode := by
+  suffices hs : ∃ w', ∃ e ∈ exRes.ends, Sat exI e.st.path ∧ e.tag = .normal ∧
+      (∃ h0, e.out = .halt h0 ∧ haltWith h0 (e.data.map (·.eval exI)) = .invalidOpcode) ∧
+      WRel exI exW w' exF0.this e.st.storage e.st.transient by
+    obtain ⟨w', e, hm, a, b, c, _⟩ := hs
+    exact ⟨e, hm, a, b, c⟩
   have hex : ∃ w', Evm.exec exP 10 exW exF0 = some (w', .invalidOpcode) := by
     have : (Evm.exec exP 10 exW exF0).map (·.2) = some .invalidOpcode := by decide +kernel
     match h : Evm.exec exP 10 exW exF0, this with
     | some (w', _), this => exact ⟨w', by simp only [Option.map_some, Option.some.injEq] at this; rw [← this]⟩
   obtain ⟨w', hex⟩ := hex
+  refine ⟨w', ?_⟩
   have hall : ∀ e ∈ exRes.ends, (∀ r, e.out ≠ .stuck r) ∧ e.tag = .normal := by
     have : ∀ e ∈ exRes.ends, (match e.out with | .stuck _ => false | _ => true) = true ∧ e.tag = .normal := by
       decide +kernel
@@ -168,14 +176,14 @@ example : ∃ e ∈ exRes.ends, Sat exI e.st.path ∧ e.tag = .normal ∧
     obtain ⟨h1, h2⟩ := this e hm
     refine ⟨fun r hr => ?_, h2⟩
     rw [hr] at h1; cases h1
-  exact flagged foldSimp_sound oracleSound_unknown {} exEnv exCode 100 exP exW C01.exMem (by decide) exI exI_std exF0 exR 10 w'
-    .invalidOpcode hex (by decide) (by decide +kernel) (by decide +kernel) (by decide +kernel)
+  exact flagged foldSimp_sound oracleSound_unknown {} exEnv exCode 100 exP exW C01.exMem (by decide) exI exI_std exF0 exR (C01.exZero _) 10 w'
+    .invalidOpcode hex (by decide +kernel) (by decide +kernel) (by decide +kernel)
     (fun e hm _ => hall e hm)
 
 /-- `concrete_loops_uncut`: `PUSH1 1; PUSH1 4; JUMPI; STOP; JUMPDEST; STOP` at the JUMPI with `--loop 0` -/
 example : (step foldSimp exOracle { loop := 0 } exEnv [0x60, 1, 0x60, 5, 0x57, 0x00, 0x5b, 0x00]
-      ⟨4, [.bv 256 (.con 5), .bv 256 (.con 1)], [], [], [], []⟩).bounded = [] :=
-  (concrete_loops_uncut (cfg := { loop := 0 }) (st := ⟨4, [.bv 256 (.con 5), .bv 256 (.con 1)], [], [], [], []⟩)
+      ⟨4, [.bv 256 (.con 5), .bv 256 (.con 1)], [], [], [], [], [], [], []⟩).bounded = [] :=
+  (concrete_loops_uncut (cfg := { loop := 0 }) (st := ⟨4, [.bv 256 (.con 5), .bv 256 (.con 1)], [], [], [], [], [], [], []⟩)
     (sz := 256) (target := 5) rfl rfl rfl true (Or.inr ⟨256, 1, rfl, rfl⟩)).1
 
 end HalmosVerif.Props.C10
